@@ -62,7 +62,11 @@ class ConsumerClient(Client):
         return self.queued()
 
     def seed(self):
-        return self.seed_value()
+        v = self.seed_value()
+        if self.rng.random() < 0.06:
+            # an integer seed that is not a builtin int
+            return {"np": self.rng.choice(["int64", "int32"]), "v": v % (2 ** 31 - 1)}
+        return v
 
     def bad_ps_add(self):
         """A PostSelection.add() the API refuses: a second rule on a mode that
